@@ -13,8 +13,8 @@ RULE = ("one case = (method, direction, dense flag, event mix incl. simultaneous
         "direction; non-trivial = >=1 reported event; distinct by (method,direction,dense,event mix,seed)")
 ASSUMPTIONS = ["true roots with |dg/dt| below 5% of the function's scale (tangential) and pairs of true roots closer than the location tolerance are excluded",
                "root location tolerance in t: K*(dy*|s||grad h|/|dg/dt| + max(4eps(1+|t|), ulp(t))) with dy = node error + h^4 max|y''''|/384, K=10"]
-FLOORS = {"quick": {"events_checked": 150, "events_backward": 50, "events_nodense": 50, "steps_with_two_events": 3, "boundary_root_events": 6},
-          "thorough": {"events_checked": 1500, "events_backward": 500, "events_nodense": 500, "steps_with_two_events": 30, "boundary_root_events": 60}}
+FLOORS = {"quick": {"events_checked": 150, "events_backward": 50, "events_nodense": 50, "steps_with_two_events": 3, "boundary_root_events": 6, "events_on_small_steps": 12, "events_on_tiny_steps": 4},
+          "thorough": {"events_checked": 1500, "events_backward": 500, "events_nodense": 500, "steps_with_two_events": 30, "boundary_root_events": 60, "events_on_small_steps": 150, "events_on_tiny_steps": 20}}
 QUICK_METHODS = ["RK45CKSolver", "DOPRI45", "RK4Solver", "EulerSolver", "RK8713MSolver", "ABAs5o6HSolver", "SymplecticEulerSolver",
                  "BackwardEuler", "RadauIIA5", "GaussLegendre4", "MidpointSolver", "RK108Solver"]
 CASE_TIMEOUT = 900
@@ -49,6 +49,14 @@ def gen_cases(tier, seed):
                     t0 = float(rng.uniform(-2, 2))
                     cases.append(dict(kind="smallstep", method=name, direction=d, dense=bool(rng.random() < 0.5), t0=t0, tf=t0 + d * L, nsteps=L / h, fixed_h=h,
                                       nev=2, pseed=int(rng.integers(1 << 30)), cost=4 * L / h / 500.0))
+    # ... and on steps so small (5e-5) that samples sqrt(eps)*dt away from the root are themselves below that noise
+    for name in ["RK4Solver", "RK5Solver"]:
+        for d in (1, -1):
+            for r in range(2 if tier == "quick" else 5):
+                L = float(rng.uniform(0.3, 0.45))
+                t0 = float(rng.uniform(-2, 2))
+                cases.append(dict(kind="smallstep", method=name, direction=d, dense=bool(rng.random() < 0.5), t0=t0, tf=t0 + d * L, nsteps=L / 5e-5, fixed_h=5e-5,
+                                  nev=2, pseed=int(rng.integers(1 << 30)), cost=20))
     for name in (["RK4Solver", "EulerSolver", "ABAs5o6HSolver"] if tier == "quick" else [n for n in M if M[n]["explicit"] and not M[n]["adaptive"]]):
         for d in (1, -1):
             for dense in (True, False):
@@ -176,6 +184,10 @@ def run_case(spec):
                 rec.bump("events_nodense")
             if spec["kind"] == "boundary":
                 rec.bump("boundary_root_events")
+            if spec["kind"] == "smallstep":
+                rec.bump("events_on_small_steps")
+                if spec.get("fixed_h", 1.0) < 1e-4:
+                    rec.bump("events_on_tiny_steps")
             tev = float(e.t)
             ulp = float(np.spacing(abs(tev))) if tev != 0 else 0.0
             tolx = max(4 * eps * (1 + abs(tev)), 4 * ulp)
